@@ -160,11 +160,31 @@ class Memory:
             if ty.kind == 'int': return 0
             if ty.kind == 'fp': return s.dom.const(0.0)
             return NULL
-        s.nfresh += 1
-        nm = "uninit!%s!%d!%d" % (o.name, off, s.nfresh)
-        if ty.kind == 'int': return z3.BitVec(nm, ty.bits)
-        if ty.kind == 'fp': return s.dom.fresh(nm)
-        raise MemError("uninitialised pointer read %s+%d" % (o.name, off))
+        if ty.kind == 'ptr': raise MemError("uninitialised pointer read %s+%d" % (o.name, off))
+        # materialise the never-written bytes once, so that later reads and copies see the same (arbitrary) bits
+        s._materialise_gaps(o, off, off + ty.size())
+        e = o.cells.get(off)
+        if e is not None and e[0] == ty.size(): return s._coerce(e[1], ty)
+        return s._load_bytes(o, off, ty)
+    def _materialise_gaps(s, o, lo, hi):
+        """give every byte of [lo,hi) of a base-less object that no cell covers a fresh symbolic value (stable junk)"""
+        if o.base is not None: return
+        k = lo
+        cells = o.cells
+        while k < hi:
+            c = None
+            for q in range(k - 7, k + 1):
+                e = cells.get(q)
+                if e is not None and q + e[0] > k: c = (q, e); break
+            if c is not None:
+                k = c[0] + c[1][0]; continue
+            # length of the gap starting at k
+            j = k + 1
+            while j < hi and cells.get(j) is None: j += 1
+            n = 8 if (k % 8 == 0 and j - k >= 8) else (4 if (k % 4 == 0 and j - k >= 4) else 1)
+            s.nfresh += 1
+            cells[k] = (n, z3.BitVec("uninit!%s!%d!%d" % (o.name, k, s.nfresh), 8 * n))
+            k += n
     def _coerce(s, v, ty):
         k = ty.kind
         if k == 'int':
@@ -196,7 +216,7 @@ class Memory:
         e = o.cells.get(q)
         if e is not None and e[0] == 1: return e[1]
         if o.cells:
-            for k in range(q - 7, q):
+            for k in range(q - 7, q + 1):
                 e = o.cells.get(k)
                 if e is not None and k + e[0] > q:
                     return s._bytes_of(e[1], e[0])[q - k]
@@ -220,6 +240,8 @@ class Memory:
         # gather source cells (splitting partial overlaps)
         items = []
         lo = src.off; hi = src.off + n
+        if so.base is None and s.on_uninit == 'fresh' and n <= 1 << 16 and s.dom.symbolic:
+            s._materialise_gaps(so, lo, hi)
         if so.cells:
             for k in list(so.cells.keys()):
                 e = so.cells.get(k)
